@@ -207,7 +207,8 @@ Init ==
 \* first event of a case: class "case" carries the comparison configuration
 StartCase ==
   /\ l <= Len(Ev) /\ Ev[l].cls = "case"
-  /\ cs' = [case |-> Ev[l].case, skip |-> FALSE, probed |-> FALSE, c |-> Ev[l]]
+  /\ cs' = [case |-> Ev[l].case, skip |-> FALSE,
+            probed |-> Ev[l].chk11 \/ Ev[l].chk12 # "" \/ Ev[l].chk13 \/ Ev[l].probed, c |-> Ev[l]]
   /\ st' = <<>> /\ slots' = <<>> /\ l' = l + 1 /\ UNCHANGED nbad
 
 Skip ==
